@@ -228,20 +228,41 @@ pub const ZSTD_COMPRESSION_LEVEL: i32 = 3;
 /// Represents the byte offset in a segment file up to which all data has been safely
 /// flushed to disk and can be read concurrently.
 #[derive(Clone, Debug)]
-pub struct FlushedOffset(Arc<AtomicU64>);
+pub struct FlushedOffset(Arc<FlushedState>);
+
+#[derive(Debug)]
+struct FlushedState {
+    offset: AtomicU64,
+    // Number of truncations so far: bytes cached before a truncation may since have been
+    // overwritten, even if the flushed offset has grown past them again
+    truncations: AtomicU64,
+}
 
 impl FlushedOffset {
     pub(crate) fn new(offset: u64) -> Self {
-        FlushedOffset(Arc::new(AtomicU64::new(offset)))
+        FlushedOffset(Arc::new(FlushedState {
+            offset: AtomicU64::new(offset),
+            truncations: AtomicU64::new(0),
+        }))
     }
 
     pub(crate) fn set(&self, offset: u64) {
-        self.0.store(offset, Ordering::Release)
+        self.0.offset.store(offset, Ordering::Release)
+    }
+
+    /// Moves the flushed offset back after a truncation.
+    pub(crate) fn truncate(&self, offset: u64) {
+        self.0.truncations.fetch_add(1, Ordering::AcqRel);
+        self.0.offset.store(offset, Ordering::Release)
+    }
+
+    pub(crate) fn truncations(&self) -> u64 {
+        self.0.truncations.load(Ordering::Acquire)
     }
 
     /// Returns the current flushed offset value.
     pub fn load(&self) -> u64 {
-        self.0.load(Ordering::Acquire)
+        self.0.offset.load(Ordering::Acquire)
     }
 }
 
